@@ -140,3 +140,83 @@ func Enum11(t *testing.T) {
 		return []Case11{{Mode: "parse", Query: B(s)}}
 	})
 }
+
+// ---- bounded-exhaustive setter histories -----------------------------------------------------------
+
+// enumSetterValues: a small pool per setter of the values that take different branches.
+var enumSetterValues = [spec.NumSetters][]string{
+	/* protocol */ {"http", "https", "file", "foo", "ws:", ""},
+	/* username */ {"", "u", "a:b@"},
+	/* password */ {"", "p", "%"},
+	/* host     */ {"", "h", "h:82", "h:80", "1.2.3.4", "[::1]:0", "a b", "C:", "localhost", "h:65536"},
+	/* hostname */ {"", "x", "x:1", "0x7f.1", "[::2]", "C|"},
+	/* port     */ {"", "0", "80", "443", "65535", "65536", "8x"},
+	/* pathname */ {"", "/", "//x", "/.//y", "C|/z", "a b", "/..", "\\w"},
+	/* search   */ {"", "?", "a=b", "a b"},
+	/* hash     */ {"", "#", "f", "a b"},
+}
+
+var enumHistStarts = []string{"http://u:p@h:81/p?q#f", "http://h/", "https://h:80/", "file:///C:/x", "file://h/x", "foo://h/p", "foo://:p@h:1/p", "foo:/p", "foo:/.//p", "foo:o", "foo:o  ?q#f", "foo://", "ws://1.2.3.4:0/", "http://[::1]/", "a:/"}
+
+// enumHistories calls fn for every history of exactly depth setter steps over enumSetterValues.
+func enumHistories(depth, shard, shards int, fn func(ops []Op) bool) {
+	type sv struct {
+		w int
+		v string
+	}
+	var steps []sv
+	for w := 0; w < spec.NumSetters; w++ {
+		for _, v := range enumSetterValues[w] {
+			steps = append(steps, sv{w, v})
+		}
+	}
+	var idx int64
+	ops := make([]Op, depth)
+	var rec func(d int) bool
+	rec = func(d int) bool {
+		if d == depth {
+			idx++
+			if (idx-1)%int64(shards) != int64(shard) {
+				return true
+			}
+			return fn(ops)
+		}
+		for _, s := range steps {
+			ops[d] = Op{Kind: "set", Setter: s.w, Value: B(s.v)}
+			if !rec(d + 1) {
+				return false
+			}
+		}
+		return true
+	}
+	rec(0)
+}
+
+func runHistEnum(t *testing.T, p core.Prop[CaseHist], tail []Op) {
+	shard, shards, _ := shardInfo()
+	depth := enumLen(2, 3)
+	failed := false
+	enumHistories(depth, shard, shards, func(ops []Op) bool {
+		for _, st := range enumHistStarts {
+			c := CaseHist{Input: B(st), Ops: append(append([]Op{}, ops...), tail...)}
+			r := &core.Rec{}
+			core.SafeCheck(p, c, r)
+			if core.Account(p.ID, c, r) {
+				failed = true
+				t.Errorf("VIOLATION %s (history enumeration): %s", p.ID, r.Message())
+				return false
+			}
+		}
+		return true
+	})
+	if !failed {
+		core.Extra("enumeration:"+p.ID+"-histories", map[string]interface{}{"starts": len(enumHistStarts), "steps": depth, "complete": true})
+	}
+}
+
+func EnumHist03(t *testing.T) { runHistEnum(t, P03, nil) }
+func EnumHist04(t *testing.T) { runHistEnum(t, P04, []Op{{Kind: "resolve", Value: "../x?y#z"}}) }
+func EnumHist05(t *testing.T) { runHistEnum(t, P05, nil) }
+func EnumHist19(t *testing.T) {
+	runHistEnum(t, P19, []Op{{Kind: "clone"}, {Kind: "resolve", Value: "/r"}})
+}
